@@ -20,6 +20,13 @@
 (* 2048 and checks everything the real client returns with std crypto over *)
 (* an independent encoding of the SUBMITTED chain.                         *)
 (*                                                                         *)
+(* History.  The server remembers the signed answers it has given to THIS  *)
+(* client (variable served) and may, in any later call, serve one of them   *)
+(* again byte for byte, or cut its signature bytes out and attach them to   *)
+(* another tree head / another SCT / an answer of the other kind.  A        *)
+(* signature "verifies" for what THIS call asked and THIS answer says; that *)
+(* an earlier call returned an object with the same bytes proves nothing.   *)
+(*                                                                         *)
 (* Outcomes are "ok" (a value is returned), "error", or "any" where the    *)
 (* property is silent (see Ambiguous below): then only the safety part is  *)
 (* demanded - if something is returned it must verify.                     *)
@@ -34,7 +41,10 @@ CONSTANTS
   AfterRetryStatuses,  \* exploration bound: statuses of an answer to a repeated request
   MaxAnswers,          \* answers per call (repetitions + 1)
   MaxCalls,            \* calls per behaviour
-  CarryLayers          \* failure layers for which "the error carries status and body" is asserted
+  CarryLayers,         \* failure layers for which "the error carries status and body" is asserted
+  X509Chains,          \* exploration bound: the chains submitted through add-chain ("x509", "x509b")
+  KeyOptions,          \* exploration bound: how the client is given the log key ("der", "pem", "bothSame", "bothDifferent")
+  ReplaySources        \* exploration bound: classes of earlier 200 answers of signed endpoints the server keeps to replay from
 
 \* jsonclient.PostAndParseWithRetry: statuses on which a submission is made again
 Retryable == {408, 429, 503}
@@ -47,7 +57,7 @@ GetMethods == {"GetSTH", "GetSTHConsistency", "GetProofByHash", "GetEntries", "G
 AddMethods == {"AddChain", "AddPreChain"}
 Methods == GetMethods \cup AddMethods
 \* the submitted chain; the entry type is bound by the METHOD (x509_entry / precert_entry)
-ChainsFor(m) == IF m = "AddChain" THEN {"x509"}
+ChainsFor(m) == IF m = "AddChain" THEN X509Chains
                 ELSE IF m = "AddPreChain" THEN {"precert", "precertPreIssuer"}
                 ELSE {"none"}
 
@@ -188,12 +198,28 @@ ClassesFor(m) ==
          THEN Common \cup TransportBad \cup {"missingOptional", "jsonNull"} \cup (EntryClasses \ {"x509"})
   ELSE Common \cup TransportBad \cup {"missingOptional", "jsonNull"}
 
+(* ---------------------- the client's configuration ------------------- *)
+\* jsonclient.Options carries the key in two places: PublicKeyDER and PublicKey (PEM).  Keys are tokens: "A" is the log's
+\* key (signer "log" of the classes, id "keyhash"), "B" another key of the same type (signer "otherKey", id "foreign"),
+\* "C" a key of the other type.  The four ways to fill the two options:
+KeyOptionTable ==
+  [ der           |-> [der |-> "A",    pem |-> "none"],
+    pem           |-> [der |-> "none", pem |-> "A"],
+    bothSame      |-> [der |-> "A",    pem |-> "A"],
+    bothDifferent |-> [der |-> "A",    pem |-> "B"] ]   \* the PEM option names the very key the adversarial server also holds
+VARIABLE config      \* the option this client was built with (never changes)
+\* NAMED CLAUSE DERWins ("If both opts.PublicKey and opts.PublicKeyDER are set, PublicKeyDER is used"): "the log's public
+\* key" of the property is ONE key - the one signatures are verified with AND the one whose hash the log ID has to be.
+VerifKey == LET o == KeyOptionTable[config] IN IF o.der # "none" THEN o.der ELSE o.pem
+KeyOfSigner == [log |-> "A", otherKey |-> "B", otherKeyType |-> "C", nobody |-> "nobody"]
+KeyOfId(r) == IF r.id = "keyhash" THEN "A" ELSE "B"
+
 (* ------------------- what the property demands ----------------------- *)
 \* the DigitallySigned is exactly one well-formed structure whose algorithm fits the key, made by the
 \* log's key over the RFC 6962 input built from the fields of the answer (and, for an SCT, from the
 \* submitted chain and the method's entry type)
-SigVerifies(r) == r.sigForm = "ok" /\ r.alg = "ok" /\ r.signer = "log" /\ r.over = "same"
-IdIsKeyHash(r) == r.idLen = 32 /\ r.id = "keyhash"
+SigVerifies(r) == r.sigForm = "ok" /\ r.alg = "ok" /\ KeyOfSigner[r.signer] = VerifKey /\ r.over = "same"
+IdIsKeyHash(r) == r.idLen = 32 /\ KeyOfId(r) = VerifKey
 
 \* the ideal client, one conjunct per check; the layer of the first failing check is reported
 STHVerdict(r) ==
@@ -204,7 +230,7 @@ SCTVerdict(r) ==
   IF r.idLen \notin {0, 32} \/ r.sigForm # "ok" \/ r.version # "v1" \/ r.extForm # "ok" THEN "error"
   ELSE IF ~SigVerifies(r) THEN "error"
   ELSE IF r.idLen = 0 THEN "any"
-  ELSE IF r.id # "keyhash" THEN "error"
+  ELSE IF KeyOfId(r) # VerifKey THEN "error"
   ELSE "ok"
 \* what the returned value says, given the answer it was made from
 \* (stale: fields the answer omits are the retained ones, which the client has verified like any others)
@@ -218,10 +244,91 @@ Reported(r, stale) ==
 \* comes back then is stitched from two answers; the property only demands that it verifies.
 OmitsFields == {"jsonNull", "sigMissing"}
 
-\* verdict on the final answer a = [status, class] of a call of method m: <<outcome, layer>>;
+Kind(m) == IF m = "GetSTH" THEN "sth" ELSE IF m \in AddMethods THEN "sct" ELSE "data"
+
+(* ------------------- history: what the server replays ---------------- *)
+\* An answer is [status, class, src].  src = None: the body is made for this request (the classes above).  Otherwise
+\* src = [method, chain, class] names an earlier 200 answer given to this client (a member of `served`) and class says
+\* what is taken from it:
+\*   replayBody               the earlier body, byte for byte
+\*   replaySigOther<Field>    the earlier body with ONE field altered (tree_size + 1 / the other root / timestamp + 1 /
+\*                            extensions present <-> absent) and the signature bytes as they were
+\*   replaySigOtherKind       the well-formed fields of this endpoint with the signature bytes of an earlier answer of
+\*                            the other kind (an STH's signature in an SCT, an SCT's in an STH)
+\* The earlier answer may have been genuine or not, accepted or not; the later call may be the same call repeated,
+\* the same method with another chain, or another method.
+ReplayDev == [ replayBody |-> "same", replaySigOtherSize |-> "otherSize", replaySigOtherRoot |-> "otherRoot",
+               replaySigOtherTimestamp |-> "otherTimestamp", replaySigOtherExtensions |-> "otherExtensions" ]
+ReplayClasses == (DOMAIN ReplayDev) \cup {"replaySigOtherKind"}
+
+\* the earlier answers that can be replayed from: signed endpoints, classes with a definite description
+SourceRec(s) == IF s.method = "GetSTH" THEN STHClass[s.class] ELSE SCTClass[s.class]
+IsSource(m, cl) == /\ cl \in ReplaySources /\ cl \notin Ambiguous
+                   /\ \/ m = "GetSTH" /\ cl \in DOMAIN STHClass
+                      \/ m \in AddMethods /\ cl \in DOMAIN SCTClass
+
+\* which replays of the earlier answer s an answer to method m can be
+ReplaysFor(m, s) ==
+  IF Kind(m) = "data" THEN {}
+  ELSE IF Kind(m) # Kind(s.method) THEN
+         \* (an earlier signature over the input of the other kind may by construction be one over THIS call's input)
+         IF SourceRec(s).over # "otherSignatureType" THEN {"replaySigOtherKind"} ELSE {}
+  ELSE IF m = "GetSTH" THEN {"replayBody", "replaySigOtherSize", "replaySigOtherRoot", "replaySigOtherTimestamp"}
+  ELSE {"replayBody", "replaySigOtherTimestamp"}
+       \* (whether two changes of the extensions cancel depends on their values: not described at this level)
+       \cup (IF SourceRec(s).over # "otherExtensions" THEN {"replaySigOtherExtensions"} ELSE {})
+
+\* The signature covers the earlier fields changed by `over`; the body now says the earlier fields changed by `dev`.
+\* Each names the change of ONE field to ONE other value, so the two agree exactly when they are the same change.
+Compose(over, dev) == IF dev = "same" THEN over
+                      ELSE IF over = "same" THEN dev
+                      ELSE IF over = dev THEN "same" ELSE "mixed"
+\* the same thing said on the signed message itself (tree head: size, root, timestamp)
+STHMsg(tree, ch) == [size |-> (IF tree = "empty" THEN 0 ELSE 7) + (IF ch = "otherSize" THEN 1 ELSE 0),
+                     root |-> IF ch = "otherRoot" THEN "R2" ELSE IF tree = "empty" THEN "E" ELSE "R",
+                     ts   |-> IF ch = "otherTimestamp" THEN 1 ELSE 0]
+ASSUME ComposeSound ==
+  \A tree \in {"n", "empty"} : \A over, dev \in {"same", "otherSize", "otherRoot", "otherTimestamp"} :
+      (Compose(over, dev) = "same") <=> (STHMsg(tree, over) = STHMsg(tree, dev))
+
+\* What a replayed answer IS for the call (m, ch) that receives it: the description of the earlier answer, re-read
+\* against the input THIS call builds (its own chain and entry type, the fields THIS body carries).  The chains and the
+\* entries "other chain" / "other type" / "not final" stand for are pairwise different, so a signature that covered
+\* the earlier call's entry (or any deviation of it) covers no other call's entry.
+SameCall(m, ch, s) == m = s.method /\ ch = s.chain
+Relative(m, ch, cl, s) ==
+  LET r == SourceRec(s)
+      toggled(x) == IF cl = "replaySigOtherExtensions" THEN [x EXCEPT !.ext = IF r.ext = "empty" THEN "some" ELSE "empty"] ELSE x
+  IN
+  IF r.sigForm = "missing"
+    THEN \* the earlier answer carried no signature: nothing is transplanted, the later one carries none either
+         IF cl = "replaySigOtherKind" THEN [(IF m = "GetSTH" THEN STHValid ELSE SCTValid) EXCEPT !.sigForm = "missing"]
+         ELSE toggled(r)
+  ELSE IF cl = "replaySigOtherKind"
+    THEN [(IF m = "GetSTH" THEN STHValid ELSE SCTValid)
+            EXCEPT !.sigForm = r.sigForm, !.alg = r.alg, !.signer = r.signer, !.over = "otherSignatureType"]
+  ELSE LET o == Compose(r.over, ReplayDev[cl]) IN
+    IF m = "GetSTH" THEN [r EXCEPT !.over = o]
+    ELSE LET o2 == IF SameCall(m, ch, s) THEN o ELSE IF o = "same" THEN "otherChain" ELSE "mixed"
+         IN toggled([r EXCEPT !.over = o2])
+
+\* the description of answer a as received by the call (m, ch)
+Semantic(m, ch, a) ==
+  IF a.src # None THEN Relative(m, ch, a.class, a.src)
+  ELSE IF m = "GetSTH" /\ a.class \in DOMAIN STHClass THEN STHClass[a.class]
+  ELSE IF m \in AddMethods /\ a.class \in DOMAIN SCTClass THEN SCTClass[a.class]
+  ELSE [plain |-> a.class]
+
+\* verdict on the final answer a = [status, class, src] of a call of method m with chain ch: <<outcome, layer>>;
 \* stale: an undecodable 200 body was received earlier in the same call
-Decide(m, a, stale) ==
+Decide(m, ch, a, stale) ==
   IF a.status # 200 THEN <<"error", "http">>
+  ELSE IF a.src # None THEN
+         \* NAMED CLAUSE NoCreditForHistory: a replayed answer is judged as if it were the first this client ever saw
+         LET r == Semantic(m, ch, a) IN
+         IF m = "GetSTH" THEN <<STHVerdict(r), "signed">>
+         ELSE IF stale /\ r.sigForm = "missing" THEN <<"any", "signed">>
+         ELSE <<SCTVerdict(r), "signed">>
   ELSE IF a.class \in TransportBad THEN <<"error", "http">>
   ELSE IF a.class \in JsonBad THEN <<"error", "json">>
   ELSE IF m = "GetSTH" THEN
@@ -236,28 +343,24 @@ Decide(m, a, stale) ==
          <<IF EntryExpect[a.class].raw = "ok" THEN "ok" ELSE "any", "entry">>
   ELSE <<"ok", "none">>
 
-Semantic(m, cl) == IF m = "GetSTH" /\ cl \in DOMAIN STHClass THEN STHClass[cl]
-                   ELSE IF m \in AddMethods /\ cl \in DOMAIN SCTClass THEN SCTClass[cl]
-                   ELSE [plain |-> cl]
-Kind(m) == IF m = "GetSTH" THEN "sth" ELSE IF m \in AddMethods THEN "sct" ELSE "data"
-
 (* ------------------------------ state -------------------------------- *)
 VARIABLES
   pending,    \* None, or the call in progress: [method, chain, answers]
+  served,     \* the server's memory: the signed 200 answers [method, chain, class] given to this client so far
   Returned,   \* history: every value handed back to a caller
   ncalls,     \* completed calls
   hist,       \* history: the completed calls (for replay)
   last        \* the call completed by the last step, None otherwise
 
-vars == <<pending, Returned, ncalls, hist, last>>
+vars == <<config, pending, served, Returned, ncalls, hist, last>>
 
-Init == pending = None /\ Returned = {} /\ ncalls = 0 /\ hist = <<>> /\ last = None
+Init == config \in KeyOptions /\ pending = None /\ served = {} /\ Returned = {} /\ ncalls = 0 /\ hist = <<>> /\ last = None
 
 Invoke(m, ch) ==
   /\ pending = None /\ ncalls < MaxCalls
   /\ pending' = [method |-> m, chain |-> ch, answers |-> <<>>]
   /\ last' = None
-  /\ UNCHANGED <<Returned, ncalls, hist>>
+  /\ UNCHANGED <<config, served, Returned, ncalls, hist>>
 
 \* the call ends: `end` tells how, `outcome` is the verdict, `returns` whether a value is handed back
 Complete(answers, end, outcome, layer, returns) ==
@@ -267,15 +370,20 @@ Complete(answers, end, outcome, layer, returns) ==
       carry == IF outcome = "error" /\ end = "answered" /\ layer \in CarryLayers THEN "response"
                ELSE IF end # "answered" /\ answers = <<>> THEN "none"
                ELSE "unasserted"
-      result == IF returns THEN [k |-> "value", what |-> Kind(m), resp |-> Reported(Semantic(m, fin.class), stale)]
+      result == IF returns THEN [k |-> "value", what |-> Kind(m), resp |-> Reported(Semantic(m, pending.chain, fin), stale)]
                 ELSE [k |-> "error", carries |-> IF end = "answered" THEN fin ELSE None]
-      step == [method |-> m, chain |-> pending.chain, answers |-> answers, end |-> end,
+      step == [config |-> config, method |-> m, chain |-> pending.chain, answers |-> answers, end |-> end,
                expect |-> outcome, layer |-> layer, carry |-> carry, result |-> result]
   IN /\ pending' = None
+     /\ UNCHANGED config
      /\ ncalls' = ncalls + 1
      /\ Returned' = IF returns THEN Returned \cup {[what |-> Kind(m), method |-> m, chain |-> pending.chain,
-                                                    resp |-> Reported(Semantic(m, fin.class), stale)]}
+                                                    resp |-> Reported(Semantic(m, pending.chain, fin), stale)]}
                     ELSE Returned
+     \* whatever the client made of it, the server now has this answer to draw on
+     /\ served' = IF end = "answered" /\ fin.status = 200 /\ fin.src = None /\ IsSource(m, fin.class)
+                    THEN served \cup {[method |-> m, chain |-> pending.chain, class |-> fin.class]}
+                    ELSE served
      /\ last' = step
      /\ hist' = Append(hist, step)
 
@@ -288,21 +396,22 @@ AsksAgain(m, st, cl) == m \in AddMethods /\ (st \in Retryable \/ (st = 200 /\ cl
 FollowedUp(a) == \/ a.status \in RetryStatuses /\ a.class \in RetryBodies
                  \/ a.status = 200 /\ a.class \in UndecodableBodies
 
-\* the server answers the outstanding request
-Answer(st, cl) ==
+\* the server answers the outstanding request: with a body made for it (src = None) or out of an earlier answer
+Answer(st, cl, src) ==
   /\ pending # None
   /\ Len(pending.answers) < MaxAnswers
-  /\ cl \in ClassesFor(pending.method)
+  /\ IF src = None THEN cl \in ClassesFor(pending.method)
+                   ELSE src \in served /\ cl \in ReplaysFor(pending.method, src)
   /\ pending.answers # <<>> => FollowedUp(pending.answers[Len(pending.answers)]) /\ st \in AfterRetryStatuses \cup RetryStatuses
-  /\ LET ans == Append(pending.answers, [status |-> st, class |-> cl])
-         d == Decide(pending.method, [status |-> st, class |-> cl],
-                     \E i \in 1..Len(pending.answers) : pending.answers[i].status = 200)
+  /\ LET a == [status |-> st, class |-> cl, src |-> src]
+         ans == Append(pending.answers, a)
+         d == Decide(pending.method, pending.chain, a, \E i \in 1..Len(pending.answers) : pending.answers[i].status = 200)
      IN IF AsksAgain(pending.method, st, cl)
           THEN \* the body is dropped, the request is made again
                /\ st \in Retryable => st \in RetryStatuses /\ cl \in RetryBodies
                /\ pending' = [pending EXCEPT !.answers = ans]
                /\ last' = None
-               /\ UNCHANGED <<Returned, ncalls, hist>>
+               /\ UNCHANGED <<config, served, Returned, ncalls, hist>>
           ELSE /\ pending.answers = <<>> => st \in Statuses
                /\ cl \notin TransportBad \/ st = 200
                /\ \E returns \in (IF d[1] = "any" THEN BOOLEAN ELSE {d[1] = "ok"}) :
@@ -320,16 +429,22 @@ Drop ==
   /\ Complete(pending.answers, "dropped", "error", "transport", FALSE)
 
 Next == \/ \E m \in Methods : \E ch \in ChainsFor(m) : Invoke(m, ch)
-        \/ \E st \in Statuses \cup RetryStatuses \cup AfterRetryStatuses : \E cl \in UNION {ClassesFor(m) : m \in Methods} : Answer(st, cl)
+        \/ \E st \in Statuses \cup RetryStatuses \cup AfterRetryStatuses :
+              \/ \E cl \in UNION {ClassesFor(m) : m \in Methods} : Answer(st, cl, None)
+              \/ \E src \in served : \E cl \in ReplayClasses : Answer(st, cl, src)
         \/ Expire
         \/ Drop
 
 Spec == Init /\ [][Next]_vars
 
 (* --------------------------- the property ---------------------------- *)
-TypeOK == /\ pending = None \/ (pending.method \in Methods /\ Len(pending.answers) <= MaxAnswers)
+TypeOK == /\ config \in DOMAIN KeyOptionTable /\ VerifKey = "A"
+          /\ pending = None \/ (pending.method \in Methods /\ Len(pending.answers) <= MaxAnswers)
           /\ ncalls \in 0..MaxCalls
+          /\ \A s \in served : s.method \in {"GetSTH"} \cup AddMethods /\ s.chain \in ChainsFor(s.method) /\ IsSource(s.method, s.class)
 
+\* Over sequences of calls: r.resp describes the returned object against the input of the call that returned it
+\* (r.method, r.chain) - not against the call the bytes were first made for.
 \* every STH ever handed back carries a 32-byte root and a signature of the configured key over its own fields
 OnlyVerifiedSTH == \A r \in Returned : r.what = "sth" => r.resp.rootLen = 32 /\ SigVerifies(r.resp)
 
@@ -349,6 +464,17 @@ ErrorsCarryResponse == [][(last' # None /\ last'.end = "answered" /\ last'.expec
 \* an error hands back nothing, and what was handed back before is untouched by later calls
 NoPartialResults == [][/\ (last' # None /\ last'.result.k = "error") => Returned' = Returned
                        /\ Returned \subseteq Returned']_vars
+
+\* a replayed answer gets exactly the verdict it would get from a client that has never seen anything: what is
+\* returned from it verifies for this call (above), and what verifies for this call and is well-formed is returned
+NoCreditForHistory ==
+  [][(last' # None /\ last'.end = "answered" /\ last'.answers[Len(last'.answers)].src # None
+        /\ last'.answers[Len(last'.answers)].status = 200 /\ last'.expect # "any") =>
+       LET a == last'.answers[Len(last'.answers)]
+           r == Semantic(last'.method, last'.chain, a)
+           good == IF last'.method = "GetSTH" THEN r.rootLen = 32 /\ SigVerifies(r)
+                   ELSE SigVerifies(r) /\ IdIsKeyHash(r) /\ r.version = "v1" /\ r.extForm = "ok"
+       IN (last'.result.k = "value") <=> good]_vars
 
 \* the entry decoder never both fails to parse the logged certificate and returns a parsed entry
 ASSUME EntryDecoderSound == \A c \in EntryClasses : EntryExpect[c].raw = "error" => EntryExpect[c].parsed = "error"
